@@ -212,6 +212,10 @@ func TestC17RequestJSON(t *testing.T) {
 var c17Alphabet = []string{"+", "-", ":", "\"", "~", "^", "\\", "/", "*", "?", ">", "<", "=", " ", " ", "a", "ab", "t", "k", "n", "d", "1", "2", ".", "5", "e",
 	"\xff", "\xc3", "é", "\t", "(", ")", "2020-01-02T03:04:05Z", "AND", "OR", "\x00", "'"}
 
+// strings that leave a lexer in the middle of a token (unterminated phrase, dangling escape,
+// dangling number) when its input ends
+var c17Polluters = []string{"ab \"ba", "\"", "t:\"a b", "ab \\", "\\", "ab\\", "n:>1.", "1.", "a \"b\\", "+", "-", "t:", "a^", "a~", "/ab"}
+
 func genQueryStringNoise(t *rapid.T) string {
 	n := rapid.IntRange(0, 14).Draw(t, "len")
 	var sb strings.Builder
@@ -447,10 +451,24 @@ func TestC17QueryStringGrammar(t *testing.T) {
 		}
 		bq.fix()
 		s := strings.Join(parts, " ")
-		ctxDump = func() string { return fmt.Sprintf("C17 grammar string %q", s) }
+		// the meaning of a string must not depend on what was parsed before it (the lexers are
+		// pooled): parse an arbitrary, often malformed, string first
+		polluter, hasPolluter := "", rapid.IntRange(0, 2).Draw(t, "pollute") > 0
+		if hasPolluter {
+			if rapid.Bool().Draw(t, "hostile") {
+				polluter = rapid.SampledFrom(c17Polluters).Draw(t, "polluter")
+			} else {
+				polluter = genQueryStringNoise(t)
+			}
+			func() {
+				defer func() { _ = recover() }() // panics on arbitrary strings are O3's business
+				_, _ = bleve.NewQueryStringQuery(polluter).Parse()
+			}()
+		}
+		ctxDump = func() string { return fmt.Sprintf("C17 grammar string %q (parsed after %q)", s, polluter) }
 		got, perr, serr := c17RunQueryString(c.Idx, s)
 		if perr != nil {
-			t.Fatalf("well-formed query string %q rejected: %v", s, perr)
+			t.Fatalf("well-formed query string %q (parsed after %q) rejected: %v", s, polluter, perr)
 		}
 		if serr != nil {
 			t.Fatalf("query string %q: search failed: %v", s, serr)
@@ -460,12 +478,16 @@ func TestC17QueryStringGrammar(t *testing.T) {
 			t.Fatalf("constructed query %s: err=%v rejected=%v", bq, err, rejected)
 		}
 		if strings.Join(got, ",") != strings.Join(want, ",") {
-			t.Fatalf("query string %q on %s returned %v, the constructed query %s returns %v (docs %v)", s, c.Cfg, got, bq, want, c.Model.Docs)
+			t.Fatalf("query string %q (parsed after %q) on %s returned %v, the constructed query %s returns %v (docs %v)", s, polluter, c.Cfg, got, bq, want, c.Model.Docs)
 		}
 		if msg, _, _ := judge(bq, c.Model, got, uint64(len(got))); msg != "" {
 			t.Fatalf("query string %q on %s: %s", s, c.Cfg, msg)
 		}
 		nt := n >= 2 && len(prefixes) >= 2 && scoped
-		ev.Case(nt, map[string]interface{}{"s": s, "steps": c.Steps}, map[string]interface{}{"string": s, "constructed": bq.String(), "hits": got}, "O4-query-string-grammar", "engine:"+c.Cfg.Engine)
+		cl := []string{"O4-query-string-grammar", "engine:" + c.Cfg.Engine}
+		if hasPolluter {
+			cl = append(cl, "O4-parsed-after-another-string")
+		}
+		ev.Case(nt, map[string]interface{}{"s": s, "steps": c.Steps}, map[string]interface{}{"string": s, "parsed_after": polluter, "constructed": bq.String(), "hits": got}, cl...)
 	})
 }
